@@ -287,9 +287,27 @@ int main(int argc, char** argv) {
         for (uint64_t r : {1ULL, 2ULL, 3ULL, 7ULL, 10ULL, 1000ULL}) tasks.push_back({0, r});
         for (uint64_t r : {1ULL, 1000ULL, 1000000ULL, 1000000000ULL}) tasks.push_back({1, r});
         tasks.push_back({2, 0});
+        for (uint64_t i = 0; i < 4; i++) tasks.push_back({4, i});   // kind 4: blocks built from RAW QueryResponse / MalformedMessage items (the low-level overloads keep the earliest time themselves)
         static const uint64_t RR[] = {1, 1000, 1000000, 1000000000}; for (uint64_t i = 0; i < 16; i++) if (i / 4 != i % 4) tasks.push_back({3, i});   // kind 3: a block object re-used for a file with another tick rate (rate = 4 * first + second)
         auto run_task = [&](const Task& t, Result& R) {
             std::vector<HV> out; uint64_t n = 0;
+            if (t.kind == 4) { // every ordered triple over 8 instants x {raw query/response, raw malformed message} per position pattern t.rate (bit i: item i is a malformed message; pattern 3 = mixed the other way)
+                static const uint64_t TS[8][2] = {{9, 500}, {10, 100}, {10, 500}, {9, 100}, {10, 0}, {9, 999999}, {8, 100}, {11, 100}};
+                BlockParameters bp; bp.storage_parameters.max_block_items = 1000; std::vector<BlockParameters> bps = {bp}; FilePreamble fp(bps); const uint64_t tps = bp.storage_parameters.ticks_per_second;
+                for (int a0 = 0; a0 < 8; a0++) for (int a1 = 0; a1 < 8; a1++) for (int a2 = 0; a2 < 8; a2++) { int idx[3] = {a0, a1, a2}; CdnsBlock b(bp, 0); std::vector<std::pair<uint64_t, uint64_t>> want_q, want_m;
+                    for (int i = 0; i < 3; i++) { bool mm = (t.rate >> (i % 2)) & 1; if (t.rate == 3) mm = i != 1; Timestamp ts(TS[idx[i]][0], TS[idx[i]][1]);
+                        if (mm) { MalformedMessage m; m.time_offset = ts; m.client_port = 7; b.add_malformed_message(m); want_m.push_back({ts.m_secs, ts.m_ticks}); } else { QueryResponse q; q.time_offset = ts; q.client_port = 7; b.add_question_response_record(q); want_q.push_back({ts.m_secs, ts.m_ticks}); } }
+                    std::string rep = "kind=4;rate=" + std::to_string(t.rate) + ";i=" + std::to_string(a0 * 64 + a1 * 8 + a2); set_note(rep); R.count("traces"); R.count("nontrivial"); n++;
+                    Timestamp e = b.m_block_preamble.earliest_time; u128 ei = (u128)e.m_secs * tps + e.m_ticks; bool late = false;
+                    for (int i = 0; i < 3; i++) { u128 x = (u128)TS[idx[i]][0] * tps + TS[idx[i]][1]; if (ei > x) late = true; }
+                    if (late) out.push_back({"raw-items|earliest-time-later-than-a-record", "raw items at " + std::to_string(TS[a0][0]) + "." + std::to_string(TS[a0][1]) + ", " + std::to_string(TS[a1][0]) + "." + std::to_string(TS[a1][1]) + ", " + std::to_string(TS[a2][0]) + "." + std::to_string(TS[a2][1]) + ": the block's earliest time is " + std::to_string(e.m_secs) + "." + std::to_string(e.m_ticks)});
+                    std::vector<std::string> outs; { CdnsExporter ex(fp, MemSink{&outs}, CborOutputCompression::NO_COMPRESSION); ex.write_block(b); }
+                    try { std::istringstream is(outs.at(0)); CdnsReader rd(is); bool eof = false; CdnsBlockRead br = rd.read_block(eof); std::vector<std::pair<uint64_t, uint64_t>> got_q, got_m;
+                          for (auto& q : br.m_query_responses) if (q.time_offset) got_q.push_back({q.time_offset->m_secs, q.time_offset->m_ticks}); for (auto& m : br.m_malformed_messages) if (m.time_offset) got_m.push_back({m.time_offset->m_secs, m.time_offset->m_ticks});
+                          if (got_q != want_q || got_m != want_m) out.push_back({"raw-items|times-not-recovered", "record times read back differ from the times of the raw items"}); }
+                    catch (std::exception& x) { out.push_back({"raw-items|unreadable", x.what()}); }
+                    for (auto& v : out) R.violation("time|" + v.key, v.what, rep); if (!out.empty()) { R.outcome("kind4:viol"); return; } }
+                R.outcome("kind4:ok"); return; }
             if (t.kind == 3) { // one CdnsBlock object: filled and written under parameters A (rate r1), cleared, given parameters B (rate r2) under the SAME index 0, filled and written to a second file
                 uint64_t r1 = RR[t.rate / 4], r2 = RR[t.rate % 4]; BlockParameters bpA, bpB; bpA.storage_parameters.ticks_per_second = r1; bpB.storage_parameters.ticks_per_second = r2; bpA.storage_parameters.max_block_items = bpB.storage_parameters.max_block_items = 100000;
                 std::vector<BlockParameters> va = {bpA}, vb = {bpB}; FilePreamble fa(va), fb(vb); std::vector<std::string> oa, ob; const Pools PA = make_pools(r1), PB = make_pools(r2);
@@ -503,6 +521,9 @@ int main(int argc, char** argv) {
         if (named) { pool.run(2 * ((NP + 31) / 32), [&](uint64_t ti, Result& R) { int comp = ti % 2; size_t lo = (ti / 2) * 32; for (size_t pad = lo; pad < std::min(NP, lo + 32); pad++) run_named(comp, pad, R); if (ti % 23 == 0) R.sample("named kind=" + std::to_string(3 + comp) + ";pad=" + std::to_string(lo) + ".." + std::to_string(lo + 31)); },
                  [&](uint64_t, const std::string& d, Result& R) { R.violation("align|" + crash_key(d), d.substr(0, 1500), pool.last_note); }, total);
             total.n["evaluations"] = total.n["traces"]; rm_rf(ndir); return done(0); }
+        // preambles longer than the READER's window (65535 bytes): the text member slides every later member of the preamble (integers of every width, strings, arrays) across the first refill
+        { const size_t LO = 64800, HI = 65600; pool.run((HI - LO + 31) / 32, [&](uint64_t ti, Result& R) { for (size_t pad = LO + ti * 32; pad < std::min(HI, LO + (ti + 1) * 32); pad++) run_pad(1, pad, R); if (ti % 5 == 0) R.sample("kind=1;pad=" + std::to_string(LO + ti * 32) + ".. (reader window)"); },
+                 [&](uint64_t, const std::string& d, Result& R) { R.violation("align|" + crash_key(d), d.substr(0, 1500), pool.last_note); }, total); }
         pool.run(3 * ((NP + 31) / 32) + 1, [&](uint64_t ti, Result& R) { if (ti == 3 * ((NP + 31) / 32)) { for (size_t pad : {(size_t)4095, (size_t)4096, (size_t)4097, (size_t)6000, (size_t)8192, (size_t)20000, (size_t)70000}) for (int k = 0; k < 3; k++) run_pad(k, pad, R); return; }
             int kind = ti % 3; size_t lo = (ti / 3) * 32; for (size_t pad = lo; pad < std::min(NP, lo + 32); pad++) run_pad(kind, pad, R); if (ti % 23 == 0) R.sample("kind=" + std::to_string(kind) + ";pad=" + std::to_string(lo) + ".." + std::to_string(lo + 31)); },
                  [&](uint64_t, const std::string& d, Result& R) { R.violation("align|" + crash_key(d), d.substr(0, 1500), pool.last_note); }, total);
